@@ -112,7 +112,7 @@ BuildOne(o, ex, ca, t) ==
 \* ------------------------------------------------------------------ repositories and edits
 Def(kind, cmd, files, deps) == [kind |-> kind, cmd |-> cmd, files |-> files, deps |-> deps, on |-> "out"]
 InitDefs ==
-  IF Shapes = "dirflaw"
+  IF Shapes \in {"dirflaw", "dircache"}
   THEN {<<Def("dir", "k0", {"f1"}, {}), Def("cat", "k0", {"f2"}, {1}), Def("cat", "k0", {}, {1, 2})>>}
   ELSE IF Shapes = "rename"
   \* a producer whose output file can be renamed (contents unchanged), a consumer of names, a consumer of contents
@@ -121,9 +121,9 @@ InitDefs ==
   ELSE {<<Def("cat", "k0", {"f1"}, {}), Def("first", "k0", {"f2"}, {1}), Def("cat", "k0", {}, {1, 2})>>,
         <<Def("txt", "k0", {}, {}), Def("fg", "k0", {"f1"}, {1}), Def("cat", "k0", {"f2"}, {2})>>,
         <<Def("const", "k0", {"f1"}, {}), Def("cat", "k0", {"f1", "f2"}, {}), Def("fg", "k0", {}, {1, 2})>>}
-EditKinds == IF Shapes \in {"dirflaw", "rename"} THEN {} ELSE {"cat", "const", "fg"}
+EditKinds == IF Shapes \in {"dirflaw", "dircache", "rename"} THEN {} ELSE {"cat", "const", "fg"}
 \* the exhaustive one-edit configurations request the top target only; the sampled deeper ones also a middle target
-Reqs == IF MaxEdits = 1 \/ Shapes \in {"all-top", "rename"} THEN {{3}} ELSE {{3}, {2}}
+Reqs == IF MaxEdits = 1 \/ Shapes \in {"all-top", "rename", "dircache"} THEN {{3}} ELSE {{3}, {2}}
 
 Init == /\ src = [f \in F |-> "c0"] /\ defs \in InitDefs
         /\ out = [t \in T |-> Nil] /\ cache = {} /\ executed = {} /\ edits = 0
@@ -132,19 +132,19 @@ Init == /\ src = [f \in F |-> "c0"] /\ defs \in InitDefs
 
 Edit(rec) == /\ Valid(src', defs') /\ edits < MaxEdits /\ edits' = edits + 1 /\ hist' = Append(hist, rec)
              /\ UNCHANGED <<out, cache, executed, last>>
-EditFile == \E f \in F, c \in C : /\ src[f] # c /\ src' = [src EXCEPT ![f] = c] /\ UNCHANGED defs
+EditFile == \E f \in F, c \in C : /\ src[f] # c /\ (Shapes = "dircache" => f = "f1") /\ src' = [src EXCEPT ![f] = c] /\ UNCHANGED defs
                                   /\ Edit([act |-> "EditFile", f |-> f, c |-> c])
-EditCmd == \E t \in T, k \in K : /\ defs[t].cmd # k /\ defs' = [defs EXCEPT ![t].cmd = k] /\ UNCHANGED src
+EditCmd == \E t \in T, k \in K : /\ Shapes # "dircache" /\ defs[t].cmd # k /\ defs' = [defs EXCEPT ![t].cmd = k] /\ UNCHANGED src
                                  /\ Edit([act |-> "EditDef", t |-> t, def |-> defs'[t]])
 EditKind == \E t \in T, kd \in EditKinds :
                /\ defs[t].kind # kd /\ defs' = [defs EXCEPT ![t].kind = kd] /\ UNCHANGED src
                /\ Edit([act |-> "EditDef", t |-> t, def |-> defs'[t]])
 EditFiles == \E t \in T, S \in SUBSET F :
-               /\ Shapes \notin {"dirflaw", "rename"} /\ defs[t].files # S
+               /\ Shapes \notin {"dirflaw", "dircache", "rename"} /\ defs[t].files # S
                /\ defs' = [defs EXCEPT ![t].files = S] /\ UNCHANGED src
                /\ Edit([act |-> "EditDef", t |-> t, def |-> defs'[t]])
 EditDeps == \E t \in {3}, S \in SUBSET {1, 2} :
-               /\ Shapes \notin {"dirflaw", "rename"} /\ defs[t].deps # S
+               /\ Shapes \notin {"dirflaw", "dircache", "rename"} /\ defs[t].deps # S
                /\ defs' = [defs EXCEPT ![t].deps = S] /\ UNCHANGED src
                /\ Edit([act |-> "EditDef", t |-> t, def |-> defs'[t]])
 \* renaming an output file without changing what is written into it
